@@ -315,6 +315,7 @@ class Ctx:
         self.nlazy = 0
         self.names = {}
         self.nondets = []          # (name, kind, term)
+        self.choice_w = {}         # structural choices by tag (for native replay)
         self.ghost = {}            # stub ghost state
         self.events = []           # monitor/event log
         self.stats = Stats()
@@ -377,11 +378,11 @@ class Ctx:
         if hook is not None:
             return hook(self, t, tag, opts)
         if k == 'int':
-            return self.fresh_int(tag, t)
+            return self.fresh_int(tag, t, record=True)
         if k == 'bool':
-            return self.fresh_bool(tag)
+            return self.fresh_bool(tag, record=True)
         if k == 'string':
-            return self.fresh_str(tag)
+            return self.fresh_str(tag, record=True)
         if k == 'time':
             name = self.uname(tag)
             v = z3.Int(name)
@@ -584,7 +585,9 @@ class Ctx:
         if k == 'ptr':
             nonnil = o.get('nonnil')
             if not nonnil and self.choose(2, 'nil?' + lz.tag) == 1:
+                self.choice_w['nil?' + lz.tag] = 1
                 return None
+            self.choice_w['nil?' + lz.tag] = 0
             et = p.elem(t)
             return self.alloc(self.fresh(et, lz.tag + '*', _sub_opts(o)), lz.tag)
         if k == 'slice':
@@ -595,22 +598,29 @@ class Ctx:
                 if len(lens) > 1:
                     lens = [1, 0] + lens[2:]
             n = lens[self.choose(len(lens), 'len?' + lz.tag)]
+            self.choice_w['len?' + lz.tag] = n
             et = p.elem(t)
             if n == 0:
                 if o.get('nonnil') or self.choose(2, 'nilslice?' + lz.tag) == 0:
+                    self.choice_w['nilslice?' + lz.tag] = 0
                     return Slice(self.alloc((), lz.tag), 0, 0, 0)
+                self.choice_w['nilslice?' + lz.tag] = 1
                 return NIL_SLICE
             arr = tuple(self.fresh(et, '%s[%d]' % (lz.tag, i), _sub_opts(o)) for i in range(n))
             return Slice(self.alloc(arr, lz.tag), 0, n, n)
         if k == 'func':
             if self.choose(2, 'nilfunc?' + lz.tag) == 0:
+                self.choice_w['nilfunc?' + lz.tag] = 0
                 return None
+            self.choice_w['nilfunc?' + lz.tag] = 1
             return OpaqueFunc(lz.tag, t)
         if k == 'iface':
             cands = o.get('cands') or IFACE_CANDS.get(t)
             if t == 'error' and cands is None:
                 if self.choose(2, 'err?' + lz.tag) == 0:
+                    self.choice_w['err?' + lz.tag] = 0
                     return None
+                self.choice_w['err?' + lz.tag] = 1
                 return self.new_error(lz.tag)
             if cands is None:
                 raise Inconclusive('lazy interface %s (%s) has no candidate set' % (t, lz.tag))
@@ -791,6 +801,10 @@ class Interp:
         try:
             try:
                 result = self.run_blocks(fr)
+            except (Inconclusive, Unwind) as e:
+                if not hasattr(e, 'gostack'):
+                    e.gostack = list(ctx.callstack)
+                raise
             except GoPanic as gp:
                 gp.stack.append(name)
                 # run deferred calls, then continue panicking (no recover in scope of the encoded code)
